@@ -9,6 +9,47 @@ from vp.strings import IntSym, SymStr, sstr, vp_format, FormatReroute
 from .common import *
 
 
+def refute_mz(w=None):
+    """native: a generated file whose covariance has lines with every mix of zero and non-zero elements"""
+    from bounded import C18 as b
+    import random as _r, os as _os, tempfile as _tf, shutil as _sh
+    g = b.load_gnss()
+    d = _tf.mkdtemp(prefix='mz_', dir=_os.environ.get('VERIF_SCRATCH') or '/var/tmp')
+    cwd = _os.getcwd()
+    try:
+        _os.chdir(d)
+        rng = _r.Random(5)
+        for tri in ('L', 'U'):
+            sol = b.gen_solution(rng, 3, False, tri)
+            n = sol['npar']
+            for i in range(n):
+                for j in range(i):
+                    if (i + 2 * j) % 3 != 0:
+                        sol['M'][i][j] = sol['M'][j][i] = 0.0
+            b.write_sinex('in.snx', sol)
+            g.remove_matrixzeros_sinex('in.snx')
+            src = open('in.snx').read().split('\n')
+            out = open('output.snx').read().split('\n')
+            inm, want = False, []
+            for ln in src[1:]:
+                if ln.startswith('+SOLUTION/MATRIX_ESTIMATE'):
+                    inm = True
+                t = ln.split()
+                if inm and ln.startswith(' ') and 3 <= len(t) <= 5 and all(float(v) == 0.0 for v in t[2:]):
+                    continue
+                want.append(ln)
+            got = [ln for ln in out[1:] if not ln.startswith('*---') and not ln.startswith('* File created by Geodepy')]
+            want = [ln for ln in want if not ln.startswith('*---')]
+            if got != want:
+                miss = [ln for ln in want if ln not in got][:2] or [ln for ln in got if ln not in want][:2]
+                return dict(call='remove_matrixzeros_sinex on a generated %s file with element-wise zeros' % tri, observed='lines lost or altered: %r' % (miss,), expected='only all-zero matrix lines removed',
+                            input=dict(generator='bounded.C18.gen_solution(Random(5), 3, False, %r) with M[i][j] = 0 unless (i+2j) %% 3 == 0' % tri))
+    finally:
+        _os.chdir(cwd)
+        _sh.rmtree(d, ignore_errors=True)
+    return None
+
+
 def main():
     P = Prop('C18')
     if 'pandas' not in sys.modules:
@@ -45,39 +86,160 @@ def main():
         def now():
             return Now()
     fn = E.transform_func(G.set_creation_time, G, FormatReroute(), extra_ns={'__vp_format': vp_format})
-    with E.rebound(G, datetime=GDT, str=sstr):
-        res = fn()
+    unsupported = None
+    try:
+        with E.rebound(G, datetime=GDT, str=sstr):
+            res = fn()
+    except (AttributeError, TypeError, S.EngineError, NotImplementedError) as ex:
+        res, unsupported = None, 'outside the ghost clock / structural string model: %s: %s' % (type(ex).__name__, str(ex)[:100])
     pre = [yr >= 1000, yr <= 9999, doy >= 1, doy <= 366, sec >= 0, sec <= 86399]
     ok_struct = isinstance(res, SymStr)
     shape = [p if isinstance(p, str) else p[0] + str(p[2] if p[0] == 'fix' else '') for p in res.p] if ok_struct else None
 
     def refute(w):
+        """native sweep with a substituted clock: every second of one day, every day of 2019..2033 at three times, year ends"""
         import datetime as _dt
+        clocks = [_dt.datetime(2021, 3, 7, 0, 16, 39)]
+        clocks += [_dt.datetime(2022, 5, 17) + _dt.timedelta(seconds=k) for k in range(86400)]
+        d0 = _dt.datetime(2019, 1, 1)
+        for k in range((_dt.datetime(2034, 1, 1) - d0).days):
+            for hms in ((0, 0, 0), (2, 46, 39), (23, 59, 59)):
+                clocks.append(d0 + _dt.timedelta(days=k, hours=hms[0], minutes=hms[1], seconds=hms[2]))
+        clocks += [_dt.datetime(y, 12, 31, 23, 59, 59) for y in (1999, 2000, 2099, 2100)] + [_dt.datetime(y, 1, 1) for y in (2000, 2001, 2100)]
+        cur = [None]
 
         class F(_dt.datetime):
             @classmethod
             def now(cls, tz=None):
-                return cls(2021, 3, 7, 0, 16, 39)
+                c = cur[0]
+                return cls(c.year, c.month, c.day, c.hour, c.minute, c.second)
         old = G.datetime
         G.datetime = F
         try:
-            v = G.set_creation_time()
+            for c in clocks:
+                cur[0] = c
+                v = G.set_creation_time()
+                want = '%02d:%03d:%05d' % (c.year % 100, (c.date() - _dt.date(c.year, 1, 1)).days + 1, c.hour * 3600 + c.minute * 60 + c.second)
+                if v != want:
+                    return dict(call='set_creation_time() with the clock at %s' % c.isoformat(), observed=v, expected=want + ' (YY:DDD:SSSSS, 12 characters)', input=dict(clock=c.isoformat()))
         finally:
             G.datetime = old
-        if len(v) != 12:
-            return dict(call='set_creation_time() with the clock at 2021-03-07 00:16:39', observed=v, expected='21:066:00999 (YY:DDD:SSSSS, 12 characters)')
+        return None
     sv = z3.Solver()
     sv.add(*pre)
     sv.add(res.length() != 12 if ok_struct else z3.BoolVal(True))
     r = E.zcheck(sv, 20000)
-    P.oblige('set_creation_time.width', 'gnss.set_creation_time', 'every second of every day', dict(result='discharged' if ok_struct and r == z3.unsat else str(r), backend=E.Z3V, ms=0,
-                                                                                                   model=E.LAST_MODEL[0]), strict=True, refute=refute, pool=[{}],
+    P.oblige('set_creation_time.width', 'gnss.set_creation_time', 'every second of every day', dict(result=unsupported or ('discharged' if ok_struct and r == z3.unsat else str(r)), backend=E.Z3V, ms=0,
+                                                                                                   model=E.LAST_MODEL[0]), strict=True, refute=refute, pool=[{}], soft=bool(unsupported),
              note='the stamp is YY:DDD:SSSSS - 12 characters for every year 1000..9999, day 1..366 and second 0..86399; structure found: %r' % (shape,))
     okf = ok_struct and len(res.p) == 5 and res.p[1] == ':' and res.p[3] == ':' and not isinstance(res.p[0], str) and not isinstance(res.p[2], str) and not isinstance(res.p[4], str)
     if okf:
         okf = z3.is_true(z3.simplify(res.p[0][1] == yr % 100)) and res.p[0][0] == 'fix' and res.p[0][2] == 2 and res.p[2][1].eq(doy) and res.p[4][1].eq(sec)
-    P.oblige('set_creation_time.fields', 'gnss.set_creation_time', 'all', dict(result='discharged' if okf else 'sat', backend='structural string model', ms=0), strict=True,
+    P.oblige('set_creation_time.fields', 'gnss.set_creation_time', 'all', dict(result=unsupported or ('discharged' if okf else 'sat'), backend='structural string model', ms=0), strict=True, refute=refute, pool=[{}], soft=bool(unsupported),
              note='fields are the two-digit year, the day of the year and the second of the day of the clock, separated by colons')
+    # ---------------------------------------------------------------- remove_matrixzeros_sinex: the whole function on a ghost file system
+    # block readers summarised (assumed: they return the block's lines without the newline - checked by C18.B.readers); every matrix line
+    # has a SYMBOLIC number of columns (0..8) and a symbolic "is the zero literal" flag per element; output recorded by a ghost `open`
+    ZERO = '0.00000000000000e+00'
+
+    class Tok:
+        def __init__(s, flag, name):
+            s.flag, s.name = flag, name
+
+        def __eq__(s, o):
+            if isinstance(o, str) and o == ZERO:
+                return S.SymB(s.flag)
+            raise S.EngineError('matrix element compared with %r (outside the token model)' % (o,))
+
+        def __ne__(s, o):
+            return ~(s == o)
+        __hash__ = None
+
+        def __float__(s):
+            raise S.EngineError('float() of a matrix element (outside the token model)')
+
+    class Line(str):
+        """a matrix-block line: a str (so that it is written verbatim) whose split() has a symbolic length"""
+        def __new__(cls, idx):
+            o = super().__new__(cls, '<matrix line %d>' % idx)
+            o.n = z3.Int('ncol%d' % idx)
+            o.z = [z3.Bool('zero%d_%d' % (idx, k)) for k in range(8)]
+            return o
+
+        def split(s, *a):
+            if a:
+                raise S.EngineError('split with arguments on a matrix line')
+            for v in range(0, 8):
+                if bool(S.SymB(s.n == v)):
+                    return [('%d' % (k + 1)) if k < 2 else Tok(s.z[k], k) for k in range(v)]
+            return [('%d' % (k + 1)) if k < 2 else Tok(s.z[k], k) for k in range(8)]
+    mlines = [Line(1), Line(2)]
+    HEADER = '%=SNX 2.02 AUS 19:183:43185 IGS 19:180:00000 19:186:00000 P 00012 2 S           \n'
+    blocks = dict(read_sinex_comments=['+FILE/COMMENT', ' a comment', '-FILE/COMMENT'], read_sinex_site_id_block=['+SITE/ID', ' ALIC  A 50137M001 P', '-SITE/ID'],
+                  read_sinex_solution_epochs_block=['+SOLUTION/EPOCHS', ' ALIC  A    1 P', '-SOLUTION/EPOCHS'],
+                  read_sinex_solution_estimate_block=['+SOLUTION/ESTIMATE', '     1 STAX   ALIC  A    1', '-SOLUTION/ESTIMATE'])
+    written = []
+
+    class Out:
+        def __enter__(s):
+            return s
+
+        def __exit__(s, *a):
+            return False
+
+        def write(s, x):
+            written.append(x)
+
+    def gopen(name, mode='r', *a, **k):
+        if 'w' not in mode:
+            raise S.EngineError('input file opened directly (readers are summarised)')
+        return Out()
+    stubs = {k: (lambda f, v=v: list(v)) for k, v in blocks.items()}
+    stubs.update(read_sinex_header_line=lambda f: HEADER, read_sinex_solution_matrix_estimate_block=lambda f: ['+SOLUTION/MATRIX_ESTIMATE L COVA'] + mlines + ['-SOLUTION/MATRIX_ESTIMATE L COVA'],
+                 set_creation_time=lambda: '21:066:00999', open=gopen)
+
+    def thunk():
+        del written[:]
+        G.remove_matrixzeros_sinex('in.snx')
+        return list(written)
+    mz_unsupported = None
+    try:
+        with E.rebound(G, **stubs):
+            mpaths = E.explore(thunk, [ln.n >= 0 for ln in mlines] + [ln.n <= 7 for ln in mlines], label='gnss.remove_matrixzeros_sinex')
+    except S.EngineError as ex:
+        mpaths, mz_unsupported = [], 'outside the token model: %s' % str(ex)[:120]
+    SEP = '*-------------------------------------------------------------------------------\n'
+    okm = bool(mpaths) and all(p['kind'] == 'ret' for p in mpaths)
+    bad_path = None
+    nl = lambda xs: [x + '\n' for x in xs]
+    for p in mpaths if okm else []:
+        w = p['val']
+        fixed_head = [HEADER.replace('19:183:43185', '21:066:00999'), SEP] + nl(blocks['read_sinex_comments']) + [SEP] + nl(blocks['read_sinex_site_id_block']) + [SEP] + \
+            nl(blocks['read_sinex_solution_epochs_block']) + [SEP] + nl(blocks['read_sinex_solution_estimate_block']) + [SEP, '+SOLUTION/MATRIX_ESTIMATE L COVA\n']
+        tail = ['-SOLUTION/MATRIX_ESTIMATE L COVA\n', '%ENDSNX\n']
+        if w[:len(fixed_head)] != fixed_head or w[-2:] != tail:
+            okm, bad_path = False, 'blocks before / after the matrix lines are not passed through line by line'
+            break
+        mid = w[len(fixed_head):-2]
+        kept = [any(x == str(ln) + '\n' for x in mid) for ln in mlines]
+        if mid != [str(ln) + '\n' for ln, k_ in zip(mlines, kept) if k_]:
+            okm, bad_path = False, 'matrix lines reordered, duplicated or not on their own line'
+            break
+        sv = z3.Solver()
+        sv.add(*p['pc'])
+        rule = []
+        for ln, k_ in zip(mlines, kept):
+            allzero = z3.Or(*[z3.And(ln.n == v, *[ln.z[k] for k in range(2, v)]) for v in (3, 4, 5)])
+            rule.append(z3.Not(allzero) if k_ else allzero)
+        sv.add(z3.Not(z3.And(*rule)))
+        if E.zcheck(sv, 5000, want_model=True) != z3.unsat:
+            okm, bad_path = False, 'a path keeps / drops a line against the rule: %s' % (str(E.LAST_MODEL[0])[:200],)
+            break
+
+    P.oblige('remove_matrixzeros_sinex.line_rule', 'gnss.remove_matrixzeros_sinex', '%d paths' % len(mpaths),
+             dict(result=mz_unsupported or ('discharged' if okm else 'sat'), backend=E.Z3V + ' over the symbolic column count and zero flags', ms=0), strict=True, refute=refute_mz, pool=[{}], soft=bool(mz_unsupported),
+             note='for matrix lines with ANY number of columns and ANY pattern of zero literals: a line is dropped exactly when it has 1..3 elements that all are 0.00000000000000e+00; kept lines, every other block, the separators and %%ENDSNX are written unchanged, in order, one per line; the header gets the new creation stamp; %s' % (bad_path or ''))
+    P.summaries.append('remove_matrixzeros_sinex: read_sinex_header_line / _comments / _site_id_block / _solution_epochs_block / _solution_estimate_block / _solution_matrix_estimate_block summarised as "return the lines of the block" (decided by C18.B.readers), set_creation_time by its own contract above, open() by a recording ghost')
     P.summaries.append('datetime.now() replaced by a ghost clock with symbolic year / day-of-year / second-of-day; str() and .format() of those integers by the structural string model')
     P.assumptions.append('the editing functions themselves (remove_stns_sinex, remove_velocity_sinex, remove_matrixzeros_sinex, the readers) are outside Layer P (text processing with data-dependent loops): decided by the bounded layer only, never counted as proved')
     B.report(P, 'bounded.C18')
@@ -87,4 +249,35 @@ def main():
 def replay(d):
     from bounded import C18 as b
     fi = d.get('failing_input') or {}
-    return b.replay_case(d.get('check'), fi.get('input', fi))
+    inp = fi.get('input', fi)
+    if d.get('layer') == 'P' and 'remove_matrixzeros' in (d.get('obligation') or ''):
+        import sys, types
+        if 'pandas' not in sys.modules:
+            try:
+                import pandas        # noqa
+            except Exception:
+                sys.modules['pandas'] = types.ModuleType('pandas')
+        return refute_mz()
+    if d.get('layer') == 'P' and isinstance(inp, dict) and 'clock' in inp:
+        import datetime as _dt, sys, types
+        if 'pandas' not in sys.modules:
+            try:
+                import pandas        # noqa
+            except Exception:
+                sys.modules['pandas'] = types.ModuleType('pandas')
+        import geodepy.gnss as G
+        c = _dt.datetime.fromisoformat(inp['clock'])
+
+        class F(_dt.datetime):
+            @classmethod
+            def now(cls, tz=None):
+                return cls(c.year, c.month, c.day, c.hour, c.minute, c.second)
+        old = G.datetime
+        G.datetime = F
+        try:
+            v = G.set_creation_time()
+        finally:
+            G.datetime = old
+        want = '%02d:%03d:%05d' % (c.year % 100, (c.date() - _dt.date(c.year, 1, 1)).days + 1, c.hour * 3600 + c.minute * 60 + c.second)
+        return None if v == want else dict(call='set_creation_time() with the clock at %s' % inp['clock'], observed=v, expected=want)
+    return b.replay_case(d.get('check'), inp)
